@@ -386,6 +386,8 @@ def run(ctx):
             for kind in ENUM_KINDS:
                 check_wrapper(ctx, m, g, kind)
     check_r1(ctx)
+    from .. import witness
+    witness.run_for(ctx, "C02")
     C.corpus_adequacy(ctx, enforce=False)
     ctx.floor("C02.arm", 150)
     ctx.floor("C02.struct", 30)
